@@ -231,6 +231,12 @@ pub const QUERIES: [&str; 8] = [
 /// selector's text instead of its content, e.g. its address, confuses them once one parse has been dropped)
 pub const ESCAPED: [&str; 3] = ["$['a\\\\b']", "$['c\\\\d']", "$..['e\\\\f']"];
 
+/// long queries next to the short ones of the alphabet (anything sized, budgeted or evicted by the length of an earlier
+/// query shows only when short and long queries meet): a long query without a filter and a long filter
+pub fn long_queries() -> Vec<String> {
+    vec![format!("$.x{}", "['n']".repeat(90)), format!("$[?{}@.s=='ab']", "@.n==1||".repeat(60)), format!("$..[{}0]", "0,".repeat(150))]
+}
+
 /// queries the parser must reject after the grammar accepted them (model-building errors inside a filter) and
 /// plain syntax errors: string entry points only; their baseline is an Err
 pub const REJECTED: [&str; 5] = ["$[?length(@.a,@.b)==1]", "$[?count(1)>0]", "$[?match(@.s,'a')==true]", "$[?@.n==9007199254740993]", "$[?@.n==]"];
@@ -266,6 +272,11 @@ pub fn ops() -> Vec<Op> {
             v.push(Op { entry, query: (QUERIES.len() + REJECTED.len() + i) as u8, doc: 1 });
         }
     }
+    for i in 0..long_queries().len() {
+        for entry in [0u8, 2, 3] {
+            v.push(Op { entry, query: (QUERIES.len() + REJECTED.len() + ESCAPED.len() + i) as u8, doc: 1 });
+        }
+    }
     v
 }
 
@@ -286,7 +297,7 @@ impl HistCtx {
         HistCtx::with_docs(hist_docs())
     }
     pub fn with_docs(docs: Vec<Value>) -> HistCtx {
-        HistCtx::with(docs, QUERIES.iter().chain(REJECTED.iter()).chain(ESCAPED.iter()).map(|q| q.to_string()).collect())
+        HistCtx::with(docs, QUERIES.iter().chain(REJECTED.iter()).chain(ESCAPED.iter()).map(|q| q.to_string()).chain(long_queries()).collect())
     }
     pub fn with(docs: Vec<Value>, queries: Vec<String>) -> HistCtx {
         let ams = docs.iter().map(AddrMap::new).collect();
